@@ -95,12 +95,12 @@ theorem C11_doxScan_comments_after_last_newline (cs buf : List Tok) :
           exact ⟨t :: pre, by simp [← h1], by simp [commentsAfterLastNl, hnl, hc, h2]⟩
         · exact ⟨[], by simp, by simp [commentsAfterLastNl]⟩
 
-/-- the trailing scan: what stays in the buffer is the buffer without the comment tokens it
-    took and without the NEWLINE that ended the line -/
+/-- the trailing scan: what stays in the buffer is the buffer without the comment tokens it took — only comment
+    tokens are removed; the NEWLINE that ends the line stays (it may end a directive line held in the same buffer) -/
 theorem C11_doxAfter_partition (cs nb buf : List Tok) :
     let r := doxAfterScan cs nb buf
-    ∃ kept dropped, r.2.1 = nb ++ kept ∧ (∀ t ∈ kept, isComment t.type = false ∧ t.type ≠ "NEWLINE") ∧
-      (∀ t ∈ dropped, isComment t.type = true ∨ t.type = "NEWLINE") ∧
+    ∃ kept dropped, r.2.1 = nb ++ kept ∧ (∀ t ∈ kept, isComment t.type = false) ∧
+      (∀ t ∈ dropped, isComment t.type = true) ∧
       (kept ++ dropped).length + r.2.2.length = buf.length := by
   induction buf generalizing cs nb with
   | nil => exact ⟨[], [], by simp [doxAfterScan], by simp, by simp, by simp [doxAfterScan]⟩
@@ -108,30 +108,30 @@ theorem C11_doxAfter_partition (cs nb buf : List Tok) :
     simp only [doxAfterScan]
     split
     · rename_i h
-      exact ⟨[], [t], by simp, by simp, by simp [h], by simp; omega⟩
+      exact ⟨[t], [], by simp, by intro x hx; simp at hx; subst hx; simp [isComment, h], by simp, by simp; omega⟩
     · rename_i hnl
       split
       · rename_i h
         obtain ⟨kept, dropped, h1, h2, h3, h4⟩ := ih cs (nb ++ [t])
         refine ⟨t :: kept, dropped, by simp [h1], ?_, h3, by simp at h4 ⊢; omega⟩
         intro x hx; simp at hx; rcases hx with rfl | hx
-        · simp [isComment, h, hnl]
+        · simp [isComment, h]
         · exact h2 x hx
       · split
         · rename_i h
           obtain ⟨kept, dropped, h1, h2, h3, h4⟩ := ih (cs ++ [t]) nb
           refine ⟨kept, t :: dropped, h1, h2, ?_, by simp at h4 ⊢; omega⟩
           intro x hx; simp at hx; rcases hx with rfl | hx
-          · left; simpa [isComment] using h
+          · simpa [isComment] using h
           · exact h3 x hx
         · rename_i hws hcm
           have hnc : isComment t.type = false := by simpa [isComment] using hcm
           split
-          · exact ⟨[t], [], by simp, by intro x hx; simp at hx; subst hx; exact ⟨hnc, hnl⟩, by simp, by simp; omega⟩
+          · exact ⟨[t], [], by simp, by intro x hx; simp at hx; subst hx; exact hnc, by simp, by simp; omega⟩
           · obtain ⟨kept, dropped, h1, h2, h3, h4⟩ := ih cs (nb ++ [t])
             refine ⟨t :: kept, dropped, by simp [h1], ?_, h3, by simp at h4 ⊢; omega⟩
             intro x hx; simp at hx; rcases hx with rfl | hx
-            · exact ⟨hnc, hnl⟩
+            · exact hnc
             · exact h2 x hx
 
 /-- comments that are not documentation comments give no text -/
